@@ -86,6 +86,16 @@ func baseSteps() []func() *pipeline.CommandStep {
 				Matrix:  &pipeline.Matrix{Setup: pipeline.MatrixSetup{"": {"a", "b"}}},
 			}
 		},
+		// the anonymous dimension next to named ones, in the setup and in an adjustment
+		func() *pipeline.CommandStep {
+			return &pipeline.CommandStep{
+				Command: "c",
+				Matrix: &pipeline.Matrix{
+					Setup:       pipeline.MatrixSetup{"": {"apple", "banana"}, "os": {"linux", "mac"}, "arch": {"amd64"}},
+					Adjustments: pipeline.MatrixAdjustments{{With: pipeline.MatrixAdjustmentWith{"": "cherry", "os": "windows", "arch": "arm"}, Skip: true}},
+				},
+			}
+		},
 		// leftover (inline) fields of the matrix and of an adjustment named like their signed fields
 		func() *pipeline.CommandStep {
 			return &pipeline.CommandStep{
@@ -612,6 +622,39 @@ func TestC14(t *testing.T) {
 		}
 		seenShadow[name] = p
 	}
+	// the payload of a step does not depend on the steps signed before it in the same SignSteps call
+	// (one set of options serves every step): same signed-field list and - the key being EdDSA,
+	// which is deterministic - same signature value as when the step is signed on its own
+	{
+		ctx := context.Background()
+		env := map[string]string{"DEPLOY": "1", "REGION": "eu", "P": "v"}
+		target := func() *pipeline.CommandStep { return &pipeline.CommandStep{Command: "make release"} }
+		g := "grp"
+		alone := pipeline.Steps{target()}
+		after := pipeline.Steps{
+			&pipeline.CommandStep{Command: "first", Env: map[string]string{"DEPLOY": "step", "P": ""}},
+			&pipeline.GroupStep{Group: &g, Steps: pipeline.Steps{&pipeline.CommandStep{Command: "second", Env: map[string]string{"REGION": "x"}}, target()}},
+			target(),
+		}
+		cases++
+		if err := signature.SignSteps(ctx, alone, kp.signer, "repo", signature.WithEnv(env)); err != nil {
+			t.Fatal(err)
+		}
+		if err := signature.SignSteps(ctx, after, kp.signer, "repo", signature.WithEnv(env)); err != nil {
+			t.Fatal(err)
+		}
+		want := alone[0].(*pipeline.CommandStep).Signature
+		for _, got := range []*pipeline.Signature{after[2].(*pipeline.CommandStep).Signature, after[1].(*pipeline.GroupStep).Steps[1].(*pipeline.CommandStep).Signature} {
+			if !reflect.DeepEqual(got.SignedFields, want.SignedFields) || (kp.name == "EdDSA" && got.Value != want.Value) {
+				failures++
+				t.Errorf("the same step signed alone and after siblings that shadow pipeline variables: fields %v / %v", want.SignedFields, got.SignedFields)
+			}
+		}
+		if len(env) != 3 || env["DEPLOY"] != "1" {
+			failures++
+			t.Errorf("SignSteps modified the caller's env map: %v", env)
+		}
+	}
 	fmt.Printf("BOUNDED name=c14-payloads cases=%d failures=%d\n", cases, failures)
 }
 
@@ -799,6 +842,46 @@ func TestC06(t *testing.T) {
 				t.Errorf("%s: near-twin step %q env %v: signature does not verify: %v", kp.name, c.Command, c.Env, err)
 			}
 		})
+	}
+	// groups carved out of one flat list (their Steps slices share a backing array and the earlier
+	// ones have spare capacity): signing must not move steps around, and every command step is signed
+	for _, kp := range kps {
+		mkFlat := func() (pipeline.Steps, []*pipeline.CommandStep) {
+			g1, g2 := "outer", "inner"
+			c := make([]*pipeline.CommandStep, 6)
+			for i := range c {
+				c[i] = &pipeline.CommandStep{Command: fmt.Sprintf("cmd-%d", i)}
+			}
+			inner := &pipeline.GroupStep{Group: &g2}
+			flat := pipeline.Steps{c[0], inner, c[2], c[3], c[4]}
+			outer := &pipeline.GroupStep{Group: &g1, Steps: flat[0:2]}
+			inner.Steps = flat[2:4]
+			return pipeline.Steps{outer, c[5], &pipeline.GroupStep{Group: &g1, Steps: flat[4:5:5]}}, c
+		}
+		steps, cmds := mkFlat()
+		twin, _ := mkFlat()
+		cases++
+		if err := signature.SignSteps(ctx, steps, kp.signer, "repo"); err != nil {
+			failures++
+			t.Errorf("%s: groups sharing a backing array: %v", kp.name, err)
+			continue
+		}
+		for i, c := range cmds {
+			if i == 1 {
+				continue // slot 1 of the flat list holds the inner group
+			}
+			if c.Signature == nil {
+				failures++
+				t.Errorf("%s: groups sharing a backing array: command step %q left unsigned", kp.name, c.Command)
+			}
+			c.Signature = nil
+		}
+		a, _ := json.Marshal(steps)
+		b, _ := json.Marshal(twin)
+		if string(a) != string(b) {
+			failures++
+			t.Errorf("%s: groups sharing a backing array: signing moved steps\n got %s\nwant %s", kp.name, a, b)
+		}
 	}
 	fmt.Printf("BOUNDED name=c06-trees cases=%d failures=%d\n", cases, failures)
 }
